@@ -45,8 +45,13 @@ def gen_cases(rng, tier):
         model["api_variant"] = "refit"      # the state behind the functions is refined between two writes of the same objects
       if model["api_variant"] == "int_cutoff":
         model["tab"]["cutoff"] = float(rng.randint(1, 20))
-      if i % 5 in (1, 2, 3):
-        model["api_results"] = [None, "numpy0d", "numpy0d_int", "numpy0d_cached"][i % 5]   # functions returning 0-d numpy arrays (fresh / integer-typed / memoised)
+      if i % 5:
+        model["api_results"] = [None, "numpy0d", "numpy0d_int", "numpy0d_cached", "falsy_callable"][i % 5]   # functions returning 0-d numpy arrays (fresh / integer-typed / memoised)
+    if i % 9 == 7 and not route.startswith("api") and len(model["pair"]) >= 2:
+      # two pairs using one built-in form with parameters that agree to six significant figures: each block is its own
+      from checks.c09 import NEAR_EQUAL_PARAMS
+      pa_, pb_ = rng.choice(NEAR_EQUAL_PARAMS)
+      model["pair"][0][-1], model["pair"][1][-1] = dict(pa_), dict(pb_)
     if i % 9 == 4 and not route.startswith("api"):
       # a formula that rescales one of its own parameters ('rho := rho*0.529177; ...'): every row starts from the parameter
       # as written in the file
